@@ -52,6 +52,8 @@ pub struct Env {
     pub scale: f64,
     /// running as a child of another inkcheck (other build variant): report on stdout
     pub child: bool,
+    /// stack size of the case-runner threads (MiB)
+    pub stack_mb: usize,
 }
 
 impl Env {
@@ -356,7 +358,7 @@ where
             let mk = &mk;
             let test = &test;
             std::thread::Builder::new()
-                .stack_size(64 << 20)
+                .stack_size(env.stack_mb << 20)
                 .spawn_scoped(sc, move || {
                     let acc = std::cell::RefCell::new(Acc::default());
                     let cfg = Config {
@@ -466,7 +468,7 @@ where
             let next = &next;
             let test = &test;
             std::thread::Builder::new()
-                .stack_size(64 << 20)
+                .stack_size(env.stack_mb << 20)
                 .spawn_scoped(sc, move || {
                     let mut acc = Acc::default();
                     loop {
@@ -622,6 +624,157 @@ pub fn run_child(env: &Env, variant: &str, extra_args: &[&str]) -> Result<RunRes
             .collect::<Vec<_>>()
             .join(" | ")
     ))
+}
+
+/// Like `run_child`, but the child may die (abort, stack overflow, OOM kill): every case it
+/// had in flight is then re-run alone in a fresh child; a case that kills its child again is
+/// reported as a violation `abort@<variant>` (key includes the signal/exit status).
+pub fn run_child_isolated(env: &Env, variant: &str, extra_args: &[&str]) -> Result<RunResult, String> {
+    let bin = env.verif.join(".build").join(variant).join("inkcheck");
+    if !bin.exists() {
+        return Err(format!("build variant missing: {}", bin.display()));
+    }
+    let dir = env
+        .verif
+        .join(".build")
+        .join("tmp")
+        .join(format!("inflight-{}-{}", std::process::id(), variant.replace('/', "_")));
+    let _ = std::fs::remove_dir_all(&dir);
+    std::fs::create_dir_all(&dir).map_err(|e| e.to_string())?;
+    let spawn = |args: &[&str], inflight: bool| -> Result<std::process::Output, String> {
+        let mut cmd = std::process::Command::new(&bin);
+        cmd.arg(&env.prop)
+            .arg("--tier")
+            .arg(env.tier.name())
+            .arg("--child")
+            .args(args)
+            .env("VERIF_SEED", (env.seed as i64).to_string())
+            .env("VERIF_DIR", &env.verif)
+            .env("VERIF_SCALE", env.scale.to_string())
+            .env("VERIF_THREADS", env.threads.to_string());
+        if inflight {
+            cmd.env("VERIF_INFLIGHT", &dir);
+        }
+        // watchdog: a child that exceeds its wall-clock budget is killed; that is reported as
+        // inconclusive (exit 2), never as a violation
+        let limit = std::time::Duration::from_secs(if inflight {
+            std::env::var("VERIF_CHILD_TIMEOUT").ok().and_then(|s| s.parse().ok()).unwrap_or(match env.tier {
+                Tier::Quick => 900,
+                Tier::Thorough => 7200,
+            })
+        } else {
+            60
+        });
+        cmd.stdout(std::process::Stdio::piped()).stderr(std::process::Stdio::piped());
+        let mut child = cmd.spawn().map_err(|e| e.to_string())?;
+        let started = Instant::now();
+        // drain pipes on threads so the child never blocks on a full pipe
+        let mut so = child.stdout.take().unwrap();
+        let mut se = child.stderr.take().unwrap();
+        let t1 = std::thread::spawn(move || {
+            let mut v = vec![];
+            let _ = std::io::Read::read_to_end(&mut so, &mut v);
+            v
+        });
+        let t2 = std::thread::spawn(move || {
+            let mut v = vec![];
+            let _ = std::io::Read::read_to_end(&mut se, &mut v);
+            v
+        });
+        let status = loop {
+            match child.try_wait() {
+                Ok(Some(st)) => break st,
+                Ok(None) => {
+                    if started.elapsed() > limit {
+                        let _ = child.kill();
+                        let st = child.wait().map_err(|e| e.to_string())?;
+                        let _ = t1.join();
+                        let _ = t2.join();
+                        let _ = st;
+                        return Err(format!("TIMEOUT after {:?}", limit));
+                    }
+                    std::thread::sleep(std::time::Duration::from_millis(20));
+                }
+                Err(e) => return Err(e.to_string()),
+            }
+        };
+        Ok(std::process::Output {
+            status,
+            stdout: t1.join().unwrap_or_default(),
+            stderr: t2.join().unwrap_or_default(),
+        })
+    };
+    let parse = |out: &std::process::Output| -> Option<RunResult> {
+        let stdout = String::from_utf8_lossy(&out.stdout);
+        for line in stdout.lines() {
+            if let Some(rest) = line.strip_prefix(CHILD_MARK) {
+                let j: J = serde_json::from_str(rest).ok()?;
+                let acc = Acc::from_json(&j["acc"]);
+                let mut fails = vec![];
+                for f in j["fails"].as_array().cloned().unwrap_or_default() {
+                    fails.push(Fail {
+                        kind: if f["kind"] == "violation" { FailKind::Violation } else { FailKind::Harness },
+                        key: f["key"].as_str().unwrap_or("").to_string(),
+                        msg: format!("[{variant}] {}", f["msg"].as_str().unwrap_or("")),
+                        case: f["case"].clone(),
+                    });
+                }
+                return Some(RunResult { acc, fails });
+            }
+        }
+        None
+    };
+    let out = match spawn(extra_args, true) {
+        Ok(o) => Some(o),
+        Err(e) if e.starts_with("TIMEOUT") => None,
+        Err(e) => return Err(e),
+    };
+    if let Some(out) = &out {
+        if let Some(r) = parse(out) {
+            let _ = std::fs::remove_dir_all(&dir);
+            return Ok(r);
+        }
+    }
+    // the child died or hung: attribute
+    let status = out.as_ref().map(|o| format!("{:?}", o.status)).unwrap_or("timeout".into());
+    let mut fails = vec![];
+    let mut files: Vec<PathBuf> = std::fs::read_dir(&dir)
+        .map(|rd| rd.filter_map(|e| e.ok()).map(|e| e.path()).collect())
+        .unwrap_or_default();
+    files.sort();
+    for f in files {
+        let Ok(text) = std::fs::read_to_string(&f) else { continue };
+        let Ok(case) = serde_json::from_str::<J>(&text) else { continue };
+        let replay = dir.join("one.json");
+        let _ = std::fs::write(&replay, json!({"property": env.prop, "key": "", "msg": "", "case": case}).to_string());
+        let o = match spawn(&["--replay", replay.to_str().unwrap_or("")], false) {
+            Ok(o) => o,
+            Err(e) if e.starts_with("TIMEOUT") => {
+                // inconclusive: keep the input for a human
+                let keep = env.verif.join("replays").join(&env.prop);
+                let _ = std::fs::create_dir_all(&keep);
+                let kp = keep.join(format!("timeout-{}.json", short_hash(&case.to_string())));
+                let _ = std::fs::write(&kp, json!({"property": env.prop, "key": "timeout", "msg": "watchdog", "case": case}).to_string());
+                fails.push(Fail::harness(format!("[{variant}] watchdog: a single input did not finish within 60 s (saved as {})", kp.display())));
+                continue;
+            }
+            Err(e) => return Err(e),
+        };
+        if parse(&o).is_none() {
+            fails.push(Fail::violation(
+                format!("abort@{variant}"),
+                format!("[{variant}] the process died ({:?}) while handling this input (stderr: {})", o.status,
+                    String::from_utf8_lossy(&o.stderr).lines().rev().take(3).collect::<Vec<_>>().join(" | ")),
+                case,
+            ));
+            break;
+        }
+    }
+    let _ = std::fs::remove_dir_all(&dir);
+    if fails.is_empty() {
+        return Err(format!("child {variant} died ({status}) and no in-flight case reproduces it alone"));
+    }
+    Ok(RunResult { acc: Acc::default(), fails })
 }
 
 /// Write evidence, print VIOLATION / KNOWN-FINDING lines, return the exit code.
